@@ -67,3 +67,72 @@ Proof.
   - intro H. destruct (Nat.lt_ge_cases k (length out)) as [L | L]; [exact L | exfalso].
     apply H. apply firstn_all2. exact L.
 Qed.
+
+
+(* ------------------------------------------------------------------------------------------------ *)
+(* binary decoder model (Model/BinFile.v decode_file, tied to rbx_binary::from_reader by the `binbytes`  *)
+(* outcome-class correspondence); proofs in Proofs/BinFileFacts.v                                       *)
+(* ------------------------------------------------------------------------------------------------ *)
+From RbxVerif Require Import Bytes Value Db CodecDom BinValues BinFile BinFileFacts.
+
+(* every strict prefix of the sample file (written by the model encoder, byte-identical to the implementation's)
+   is rejected with an error: never Ok, never a panic *)
+Theorem C13_bin_sample_truncation_rejected :
+  forallb (fun k => is_err (decode_file db0 (dp0 None) (truncate k sample_file))) (seq 0 (length sample_file)) = true.
+Proof. exact sample_truncation_rejected. Qed.
+
+(* the chunk decoder before repair 949437a7 panicked on a chunk cut inside its payload; now it is an error *)
+Theorem C13_bin_chunk_short_panic_pinned_refuted :
+  decode_chunk_pinned (dp0 None) (firstn 20 (skipn 32 sample_file)) = Panic.
+Proof. exact chunk_short_panic_pinned_refuted. Qed.
+
+Theorem C13_bin_chunk_short_is_error :
+  decode_chunk (dp0 None) (firstn 20 (skipn 32 sample_file)) = Err E_EOF.
+Proof. exact chunk_short_repaired. Qed.
+
+(* a PRNT chunk naming a parent no INST chunk declared is an error (repair bddd053a), not a panic *)
+Theorem C13_bin_prnt_unknown_parent_is_error :
+  decode_file db0 (dp0 None) orphan_file = Err E_UNKNOWN_REFERENT.
+Proof. exact prnt_unknown_parent_is_error. Qed.
+
+(* REFUTED clause "never request memory unrelated to the input size": a 57-byte file whose header announces
+   2^32-1 instances decodes Ok when allocations are unlimited, and requests more than a million bytes per input
+   byte before any chunk is read (DeserializerState::new sizes its tables by the header counts) *)
+Theorem C13_bin_header_alloc_refuted :
+  decode_file db0 (dp0 None) greedy_header_file = Ok [] /\
+  decode_file db0 (dp0 (Some (1000000 * N.of_nat (length greedy_header_file))%N)) greedy_header_file = Err E_ALLOC.
+Proof. exact header_alloc_refuted. Qed.
+
+(* whereas the sample file is decoded within 16 bytes of requests per input byte *)
+Theorem C13_bin_sample_alloc_bounded :
+  decode_file db0 (dp0 (Some (16 * N.of_nat (length sample_file))%N)) sample_file = decode_file db0 (dp0 None) sample_file.
+Proof. exact sample_alloc_bounded. Qed.
+
+(* ---- the main statements for the binary reader (after repairs 949437a7 a50f6357 bddd053a): on EVERY byte string,
+   for every allocation limit and whatever lz4/zstd return, rbx_binary::from_reader as modelled returns a DOM or
+   an error: it never panics, and the fuel the model hands to its loops (the length of the remaining input, the
+   number of queued instances) always suffices, i.e. it never hangs.  First for any database whose descriptor
+   lookups succeed, then for any database passing the C16 coherence check, then for the bundled database. *)
+From RbxVerif Require Import BinSafe BinSafeDb DbCheck.
+From RbxVerif Require Database.
+
+Theorem C13_bin_column_decoder_total : forall ty cty c n b,
+  match dec_col ty cty c n b with
+  | Ok (_, b') => (length b' <= length b)%nat
+  | Err _ => True
+  | Panic => False
+  | OutOfFuel => False
+  end.
+Proof. exact good_dec_col. Qed.
+
+Theorem C13_bin_decode_total : forall d p b, db_total d ->
+  decode_file d p b <> Panic /\ decode_file d p b <> OutOfFuel.
+Proof. exact decode_file_total. Qed.
+
+Theorem C13_bin_decode_total_coherent : forall d p b, db_coherent d = true ->
+  decode_file d p b <> Panic /\ decode_file d p b <> OutOfFuel.
+Proof. exact decode_file_total_coherent. Qed.
+
+Theorem C13_bin_decode_total_bundled : forall p b,
+  decode_file Database.database p b <> Panic /\ decode_file Database.database p b <> OutOfFuel.
+Proof. exact decode_file_total_bundled. Qed.
